@@ -1341,7 +1341,10 @@ func c12L4(c *rt.Ctx) {
 		fn := c.Fn("cmd/combine.Combine")
 		name := "cmd/combine.Combine"
 		lm := c.OneCall(fn, an.Static("cmd/combine.loadManifest"), "loadManifest", false)
-		isLock := func(v ssa.Value) bool { call := c12ResultOf(v, 0); return call != nil && ssa.Instruction(call) == lm.(ssa.Instruction) }
+		isLock := func(v ssa.Value) bool {
+			call := c12ResultOf(v, 0)
+			return call != nil && ssa.Instruction(call) == lm.(ssa.Instruction)
+		}
 		// the accumulation of recombined secrets
 		var app *ssa.Call
 		var secret ssa.Value
@@ -1381,7 +1384,10 @@ func c12L4(c *rt.Ctx) {
 			return
 		}
 		isRes := func(call ssa.CallInstruction) func(ssa.Value) bool {
-			return func(v ssa.Value) bool { r := c12ResultOf(v, 0); return r != nil && ssa.Instruction(r) == call.(ssa.Instruction) }
+			return func(v ssa.Value) bool {
+				r := c12ResultOf(v, 0)
+				return r != nil && ssa.Instruction(r) == call.(ssa.Instruction)
+			}
 		}
 		// what is written
 		ks := c.OneCall(fn, an.FieldCall("cmd/combine.options.keyStoreFunc"), "o.keyStoreFunc", false)
@@ -1697,7 +1703,10 @@ func c12L6(c *rt.Ctx) {
 		// ValueFuncs
 		pkg := c.Pkg("cluster")
 		initFn := c.SSAPkg("cluster").Func("init")
-		for _, g := range []struct{ name, path string; param int }{
+		for _, g := range []struct {
+			name, path string
+			param      int
+		}{
 			{"eip712CreatorConfigHash", ".ConfigHash", 0}, {"eip712OperatorConfigHash", ".ConfigHash", 0},
 			{"eip712V1x3ConfigHash", ".ConfigHash", 0}, {"eip712ENR", ".ENR", 1},
 		} {
@@ -2039,7 +2048,7 @@ func c12L2(c *rt.Ctx) {
 		}
 		type side struct {
 			what, marshal, unmarshal, hash string
-			cmpExempt, rtExempt         []string
+			cmpExempt, rtExempt            []string
 		}
 		sides := []side{
 			{"definition", "cluster.Definition.MarshalJSON", "cluster.Definition.UnmarshalJSON", "cluster.hashDefinition",
@@ -2081,9 +2090,9 @@ func c12L2(c *rt.Ctx) {
 // L1 — every tagged field flows into the hasher (current version)
 
 type c12Flow struct {
-	cl    *c12Clo
-	memo  map[*ssa.Parameter][2]bool
-	busy  map[*ssa.Parameter]bool
+	cl   *c12Clo
+	memo map[*ssa.Parameter][2]bool
+	busy map[*ssa.Parameter]bool
 }
 
 func c12IsSink(cc *ssa.CallCommon, v ssa.Value) bool {
@@ -2525,8 +2534,8 @@ var c12Mutants = []Mutant{
 		Old: "\t\tseenDVKeys[dvKey] = struct{}{}\n",
 		New: ""},
 	{ID: "C12-L3-defsigs-after-early-exit", File: "cluster/lock.go", Expect: "L3|early-exit definition signatures",
-		Old: "\tif err := l.Definition.VerifySignatures(eth1); err != nil {\n\t\treturn errors.Wrap(err, \"invalid definition\")\n\t}\n\n\tif len(l.SignatureAggregate) == 0 {",
-		New: "\tif len(l.SignatureAggregate) == 0 {",
+		Old:  "\tif err := l.Definition.VerifySignatures(eth1); err != nil {\n\t\treturn errors.Wrap(err, \"invalid definition\")\n\t}\n\n\tif len(l.SignatureAggregate) == 0 {",
+		New:  "\tif len(l.SignatureAggregate) == 0 {",
 		More: [][2]string{{"\tsig, err := tblsconv.SignatureFromBytes(l.SignatureAggregate)", "\tif err := l.Definition.VerifySignatures(eth1); err != nil {\n\t\treturn errors.Wrap(err, \"invalid definition\")\n\t}\n\n\tsig, err := tblsconv.SignatureFromBytes(l.SignatureAggregate)"}}},
 	{ID: "C12-L3-node-sigs-dropped", File: "cluster/lock.go", Expect: "L3|node signatures",
 		Old: "\treturn l.verifyNodeSignatures()\n}",
